@@ -13,6 +13,7 @@ import (
 	"fmt"
 	"os"
 	"sync"
+	"sync/atomic"
 	"testing"
 	"time"
 
@@ -572,4 +573,192 @@ func TestC02Burst(t *testing.T) {
 			stats.Sample(doc)
 		})
 	})
+}
+
+// TestC02PeerReplaced: the only peer stops reading, so accepted messages pile up in
+// the connection and in the send queue; then it goes away and a new peer takes its
+// place.  Messages may be lost with the connection, but what the new peer receives
+// must be in send order, without duplicates (also with respect to what the first
+// peer got) and without inventions, and everything sent once the new connection is
+// up must be delivered.
+func TestC02PeerReplaced(t *testing.T) {
+	stats.ScaledChecks(3, 5, func() { rapid.Check(t, replacedProp) })
+}
+
+func replacedProp(t *rapid.T) {
+	p := rapid.SampledFrom(pats).Draw(t, "pattern")
+	tr := rapid.SampledFrom([]string{"inproc", "inproc", "ipc", "tcp"}).Draw(t, "transport")
+	wq := rapid.SampledFrom([]int{0, 1, 2, 16, 128}).Draw(t, "writeq")
+	if p.multi && wq == 0 && stats.Known(knownPushWQ0) {
+		stats.Excluded(knownPushWQ0)
+		wq = 1
+	}
+	n1 := rapid.IntRange(1, 40).Draw(t, "beforeLoss")
+	k1 := rapid.IntRange(0, 3).Draw(t, "firstPeerReads")
+	n2 := rapid.IntRange(0, 10).Draw(t, "afterReplacement")
+	doc := map[string]interface{}{"test": "TestC02PeerReplaced", "pattern": p.name, "transport": tr, "writeq": wq,
+		"beforeLoss": n1, "firstPeerReads": k1, "afterReplacement": n2, "rseed": os.Getenv("VERIF_RSEED")}
+	fail := func(k, f string, a ...interface{}) {
+		stats.Fail(t, "C02:replaced:"+k, doc, "%s wq=%d over %s: %s", p.name, wq, tr, fmt.Sprintf(f, a...))
+	}
+	snd := fixture.New(p.snd)
+	defer snd.Close()
+	if err := snd.SetOption(mangos.OptionWriteQLen, wq); err != nil {
+		t.Fatalf("harness: %v", err)
+	}
+	sev := fixture.Hook(snd)
+	addr, _, err := fixture.Listen(snd, tr)
+	if err != nil {
+		t.Fatalf("harness: %v", err)
+	}
+	mk := func(seq int) *mangos.Message {
+		m := mangos.NewMessage(16)
+		m.Body = append(m.Body, []byte(fmt.Sprintf("s0-%d", seq))...)
+		if p.hdr != nil {
+			m.Header = append(m.Header, p.hdr...)
+		}
+		return m
+	}
+	parse := func(who string, m *mangos.Message) (int, bool) {
+		var s, q int
+		if _, err := fmt.Sscanf(string(m.Body), "s%d-%d", &s, &q); err != nil || s != 0 {
+			fail("invented", "%s received %q, which was never sent", who, m.Body)
+			return 0, false
+		}
+		return q, true
+	}
+	// first peer: reads k1 messages, then stalls
+	r1 := fixture.New(p.rcv)
+	defer r1.Close()
+	if _, err := fixture.Dial(r1, addr); err != nil {
+		t.Fatalf("harness: %v", err)
+	}
+	if !sev.WaitAttached(1, 5*time.Second) {
+		t.Fatalf("harness: attach timeout")
+	}
+	_ = snd.SetOption(mangos.OptionSendDeadline, 150*time.Millisecond)
+	accepted := 0
+	for ; accepted < n1; accepted++ {
+		m := mk(accepted)
+		if err := snd.SendMsg(m); err != nil {
+			m.Free()
+			if err != mangos.ErrSendTimeout {
+				fail("send", "Send %d: %v", accepted, err)
+				return
+			}
+			break
+		}
+	}
+	seen := map[int]string{}
+	_ = r1.SetOption(mangos.OptionRecvDeadline, 500*time.Millisecond)
+	last := -1
+	for i := 0; i < k1 && i < accepted; i++ {
+		m, err := r1.RecvMsg()
+		if err != nil {
+			fail("lost", "first peer: Recv %d of %d accepted messages: %v (connection up)", i, accepted, err)
+			return
+		}
+		q, ok := parse("first peer", m)
+		m.Free()
+		if !ok {
+			return
+		}
+		if q <= last {
+			fail("reordered", "first peer received message %d after message %d", q, last)
+			return
+		}
+		last = q
+		seen[q] = "first peer"
+	}
+	_ = r1.Close()
+	if !sev.WaitDetached(1, 5*time.Second) {
+		fail("no-detach", "sender did not drop the closed peer within 5s")
+		return
+	}
+	// the replacement
+	r2 := fixture.New(p.rcv)
+	defer r2.Close()
+	if _, err := fixture.Dial(r2, addr); err != nil {
+		fail("replacement-refused", "a new peer could not connect after the first had gone: %v", err)
+		return
+	}
+	if !sev.WaitAttached(2, 5*time.Second) {
+		fail("replacement-refused", "a new peer was not admitted within 5s after the first had gone")
+		return
+	}
+	time.Sleep(30 * time.Millisecond)
+	_ = snd.SetOption(mangos.OptionSendDeadline, 5*time.Second)
+	sendErr := make(chan error, 1)
+	var sendDone int32
+	go func() {
+		defer atomic.StoreInt32(&sendDone, 1)
+		for i := 0; i < n2; i++ {
+			m := mk(n1 + i)
+			if err := snd.SendMsg(m); err != nil {
+				m.Free()
+				sendErr <- fmt.Errorf("Send %d: %v", n1+i, err)
+				return
+			}
+		}
+		sendErr <- nil
+	}()
+	_ = r2.SetOption(mangos.OptionRecvDeadline, 250*time.Millisecond)
+	var order []int
+	late := 0
+	for {
+		// the stream has ended when a whole quiet period begins after the
+		// last Send returned
+		done := atomic.LoadInt32(&sendDone) == 1
+		m, err := r2.RecvMsg()
+		if err != nil {
+			if err == mangos.ErrRecvTimeout && !done {
+				continue
+			}
+			break
+		}
+		q, ok := parse("replacement peer", m)
+		m.Free()
+		if !ok {
+			return
+		}
+		if who, dup := seen[q]; dup {
+			fail("duplicate", "message %d was delivered to the replacement peer although the %s already had it (received %v)", q, who, order)
+			return
+		}
+		if q < 0 || q >= n1+n2 || (q < n1 && q >= accepted) {
+			fail("invented", "replacement peer received message %d which Send never accepted", q)
+			return
+		}
+		seen[q] = "replacement peer"
+		if len(order) > 0 && q < order[len(order)-1] {
+			fail("reordered", "replacement peer received message %d after message %d, which was sent later, on the same connection: %v", q, order[len(order)-1], append(order, q))
+			return
+		}
+		order = append(order, q)
+		if q >= n1 {
+			late++
+		}
+	}
+	if e := <-sendErr; e != nil {
+		fail("send-never-completes", "with the replacement peer connected and receiving: %v", e)
+		return
+	}
+	if late < n2 {
+		fail("lost", "%d of the %d messages sent after the replacement peer was connected were not delivered (received %v)", n2-late, n2, order)
+		return
+	}
+	stats.Eval()
+	stats.Class("replaced:" + p.name)
+	carried := 0
+	for _, q := range order {
+		if q < n1 {
+			carried++
+		}
+	}
+	if carried > 0 {
+		stats.Class("replaced_carried_over")
+		stats.NonTrivial(fmt.Sprintf("R|%s|%s|%d|%d|%d|%d", p.name, tr, wq, accepted, k1, n2))
+	}
+	doc["accepted"], doc["order"] = accepted, order
+	stats.Sample(doc)
 }
